@@ -352,6 +352,9 @@ func chaosPass(c *choice.Src, o engine.Opt, out *engine.Out, skip bool) *chaosWo
 			}
 		case 6: // raw payload from an in-range origin
 			idx := c.Choose(w.n, "raw.orig")
+			if w.proto != JF && c.Bool(1, 2, "raw.fromdealer") {
+				idx = w.dealer
+			}
 			data := cw.payload(c, true)
 			w.fault("raw.payload")
 			if c.Bool(1, 2, "raw.chan") {
@@ -390,7 +393,40 @@ func (cw *chaosWorld) payload(c *choice.Src, raw bool) []byte {
 		return []byte{tagVec}
 	}
 	exact := []int{33, 1 + 96*(w.t+1), 2, 34}
-	switch c.Choose(4, "payload.kind") {
+	switch c.Choose(6, "payload.kind") {
+	case 4, 5:
+		// structured: a well-formed protocol message of some kind with chosen fields (what a
+		// Byzantine participant that knows the format sends), possibly with a wrong point count
+		switch c.Choose(4, "payload.struct") {
+		case 0:
+			return append([]byte{tagAnswer, byte(c.Choose(w.n, "payload.answer.for"))}, curve.ScalarRandom(rnd)...)
+		case 1:
+			return []byte{tagComplaint, byte(c.Choose(w.n, "payload.complaint.against"))}
+		case 2:
+			return append([]byte{tagShare}, curve.ScalarRandom(rnd)...)
+		default:
+			var vec []byte
+			for _, h := range w.history {
+				if len(h) == 1+96*(w.t+1) && h[0] == tagVec {
+					vec = append([]byte(nil), h[1:]...)
+				}
+			}
+			if vec == nil {
+				vec = make([]byte, 96*(w.t+1))
+				for i := 0; i <= w.t; i++ {
+					vec[96*i] = 0xC0 // t+1 points at infinity: decodable
+				}
+			}
+			switch c.Choose(4, "payload.vec.shape") {
+			case 1:
+				vec = vec[:len(vec)-96]
+			case 2:
+				vec = append(vec, vec[:96]...)
+			case 3:
+				copy(vec[96*c.Choose(w.t+1, "payload.vec.pos"):], curve.G2OffCurve(rnd))
+			}
+			return append([]byte{tagVec}, vec...)
+		}
 	case 0:
 		if len(w.history) == 0 {
 			return []byte{}
